@@ -115,3 +115,38 @@ Proof.
     induction l as [|b l IH]; intros [|n]; simpl; try tauto. intros [H|H]; [left; exact H|right; eapply IH; exact H].
   - inversion H; subst. apply IH. assumption.
 Qed.
+
+(* ---- the number of words of a given length ---- *)
+From AV Require Import Spec.Words Spec.Preds.
+
+Lemma flat_map_const_length {X Y} (f : X -> list Y) (l : list X) n :
+  (forall x, In x l -> length (f x) = n) -> length (flat_map f l) = length l * n.
+Proof.
+  induction l as [|a l IH]; intro H; simpl; [reflexivity|]. rewrite app_length, IH.
+  - rewrite (H a (or_introl eq_refl)). reflexivity.
+  - intros x Hx. apply H. right. exact Hx.
+Qed.
+
+Lemma all_words_length S k : length (all_words S k) = length S ^ k.
+Proof.
+  induction k as [|k IH]; simpl; [reflexivity|].
+  rewrite (flat_map_const_length _ S (length S ^ k)); [reflexivity|]. intros a _. rewrite map_length. exact IH.
+Qed.
+
+Lemma filter_all {X} (f : X -> bool) l : (forall x, In x l -> f x = true) -> filter f l = l.
+Proof.
+  induction l as [|a l IH]; intro H; simpl; [reflexivity|]. rewrite (H a (or_introl eq_refl)). f_equal.
+  apply IH. intros x Hx. apply H. right. exact Hx.
+Qed.
+
+Lemma filter_none {X} (f : X -> bool) l : (forall x, In x l -> f x = false) -> filter f l = [].
+Proof.
+  induction l as [|a l IH]; intro H; simpl; [reflexivity|]. rewrite (H a (or_introl eq_refl)).
+  apply IH. intros x Hx. apply H. right. exact Hx.
+Qed.
+
+Lemma counted_over cs w : Forall (fun a => In a cs) w -> counted cs w = length w.
+Proof.
+  unfold counted. induction w as [|a w IH]; intro H; simpl; [reflexivity|]. inversion H as [|? ? Ha Hw]; subst.
+  rewrite (proj2 (memb_In a cs) Ha). simpl. f_equal. apply IH. exact Hw.
+Qed.
